@@ -59,6 +59,11 @@ def validReq (r : Request) : Bool :=
 def isInitial (r : Request) : Bool := r.method = mSUBSCRIBE && (hdr r kSID).isNone
 def isRenewal (r : Request) : Bool := r.method = mSUBSCRIBE && (hdr r kSID).isSome
 
+/-- every initial SUBSCRIBE of the call carries the notify server's CURRENT callback URL `cb` (the URL at the time of the
+    call, not one remembered from an earlier call) -/
+def callbackOk (cb : Str) (exch : List Exch) : Bool :=
+  exch.all fun e => !isInitial e.req || hdr e.req kCALLBACK == some ('<' :: cb ++ ['>'])
+
 /-! ### what the publisher granted -/
 
 /-- largest number of seconds a `timedelta` can hold -/
